@@ -122,6 +122,7 @@ class Session:
         self.problems = []
         self.exc = None
         self.docs = []              # (name, doc) everything emitted
+        self.backstop = []          # documents of the engine's backstop collect after a failure
 
     # -- detector ledger
     def reported(self, i, v):
@@ -258,6 +259,11 @@ def execute(ops, nd, ns, greedy=(), lazy=False, use_async=False, kickoff=True):
             cols = [e for e in sess.events if e["op"] == "collect"]
             if cols:
                 cols[-1]["err"] = True
+                # RunEngine cleanup after a failure: backstop_collect() flushes detectors that were kicked off but never
+                # collected (outside any collect message); their documents are not part of the failed collect
+                c = cols[-1]
+                sess.backstop = [d for d in c["docs"] if d["d"] not in c["ds"]]
+                c["docs"] = [d for d in c["docs"] if d["d"] in c["ds"]]
             else:
                 sess.problems.append(f"exception without a collect: {ex!r}")
             break
